@@ -628,9 +628,25 @@ namespace Clipper2Lib {
       op = op->next;
     } while (op != op1 && std::abs(outside_cnt) < 2);
     if (std::abs(outside_cnt) > 1) return (outside_cnt < 0);
-    // since path1's location is still equivocal, check its midpoint
-    Point64 mp = GetBounds(GetCleanPath(op1)).MidPoint();
+    // since path1's location is still equivocal (its vertices touch path2),
+    // look at the mid-points of path1's edges: they lie on path1, so the first
+    // one that isn't on path2 tells on which side of path2 path1 is. (The centre
+    // of path1's bounds can lie outside a non-convex path2 that contains path1.)
     Path64 path2 = GetCleanPath(op2);
+    op = op1;
+    do
+    {
+      // (halve before adding: coordinates may be as large as 2^62)
+      const Point64 mid(
+        op->pt.x / 2 + op->next->pt.x / 2 + (op->pt.x % 2 + op->next->pt.x % 2) / 2,
+        op->pt.y / 2 + op->next->pt.y / 2 + (op->pt.y % 2 + op->next->pt.y % 2) / 2);
+      result = PointInPolygon(mid, path2);
+      if (result != PointInPolygonResult::IsOn)
+        return (result == PointInPolygonResult::IsInside);
+      op = op->next;
+    } while (op != op1);
+    // path1 runs along path2 everywhere, so fall back on the centre of its bounds
+    Point64 mp = GetBounds(GetCleanPath(op1)).MidPoint();
     return PointInPolygon(mp, path2) != PointInPolygonResult::IsOutside;
   }
 
